@@ -139,6 +139,7 @@ fn lat_profile() -> Profile {
     pf.max_steps = 30;
     pf.min_steps = 4;
     pf.kinds = [0; N_KINDS];
+    pf.episode_pct = 12;
     pf
 }
 
